@@ -93,6 +93,11 @@ def emit() -> str:
                         before.append(n.attr)
     if game_src is None:
         raise ValueError("reset does not assign self.game")
+    # `__init__`: the statement `self.game = …` must be a top-level statement as well (the construction of the game is unconditional)
+    init_src = [ast.unparse(st.value) for st in methods["__init__"].body if isinstance(st, (ast.Assign, ast.AnnAssign)) and st.value is not None
+                and ast.unparse(st.targets[0] if isinstance(st, ast.Assign) else st.target) == "self.game"]
+    if len(init_src) != 1:
+        raise ValueError(f"__init__: expected exactly one top-level `self.game = …`, found {len(init_src)}")
     later_methods = [m for m in methods if m not in ("__init__", "reset")]
     later_reads: List[str] = []
     later_writes: List[str] = []
@@ -123,6 +128,8 @@ def initAssigns : List String := {_l(_assigned(methods['__init__']))}
 def resetAssigns : List String := {_l(_assigned(reset))}
 /-- the expression `reset` assigns to `self.game` -/
 def resetGameSource : String := "{game_src}"
+/-- the expression `__init__` assigns to `self.game` (a top-level statement) -/
+def initGameSource : String := "{init_src[0]}"
 /-- attributes of self read by `reset` before it replaces the game -/
 def resetReadsBeforeNewGame : List String := {_l(before)}
 /-- calls made by `reset` before / after it replaces the game (logging excluded) -/
